@@ -1,6 +1,7 @@
 package main
 
 import (
+	"regexp"
 	"fmt"
 	"go/token"
 	"strings"
@@ -32,6 +33,7 @@ func init() {
 }
 
 func runC13(c *Ctx) {
+	runC13Second(c)
 	runC13Extra(c)
 	const tp = "service/transaction"
 
@@ -295,5 +297,77 @@ func runC13Extra(c *Ctx) {
 			c.check(okD || len(guardsAt(fs.Store)) > 0, "C13.empty-id", "the JSON id is installed when it differs from the field id", fs.Store.Pos(), render(fs.Store.Val), "txHash store unguarded")
 		}
 		c.check(n >= 1, "C13.empty-id", "parseV3JSON installs the id of the original JSON when it differs from the id of the parsed fields", fn.Pos(), "tx.txHash = id", "a transaction with non-canonical or extra fields keeps the id of its parsed fields: its signature is checked against an id that is not the one of the bytes that were signed")
+	}
+}
+
+// runC13Second: rules added for the second list of independent mutants.
+// (1) a transaction enters the pool as `already verified` only behind a
+// successful VerifyTx of that very transaction; (2) serialising a signature
+// never writes into the signature's own bytes; (3) the binary form of a
+// signature is parsed whole (no truncation of an over-long field).
+func runC13Second(c *Ctx) {
+	nAdd := 0
+	for _, f := range c.pkgFuncs("service") {
+		if strings.HasSuffix(c.file(f.Pos()), "_test.go") {
+			continue
+		}
+		for _, cs := range c.calls(f, byCallee("(*service.TransactionManager).Add")) {
+			_, a := callArgs(cs.Common())
+			if len(a) != 3 {
+				continue
+			}
+			nAdd++
+			if isConstBool(a[2], false) {
+				c.okTrivial("C13.verify-door", fnName(f)+" adds an unverified transaction (Add verifies it)", cs.Pos(), "verified=false")
+				continue
+			}
+			if !isConstBool(a[2], true) {
+				c.violate("C13.verify-door", fnName(f)+": the `verified` flag is a constant", cs.Pos(), "verified = "+render(a[2]))
+				continue
+			}
+			c.requireAt("C13.verify-door", fnName(f)+" adds a transaction as already verified", cs.Instr, wSame("VerifyTx(tx) == nil", "^"+regexp.QuoteMeta("$r.tm.VerifyTx("+render(a[0])+")")+"$", `^nil$`))
+		}
+	}
+	if nAdd < 2 {
+		c.undecided("C13.verify-door", "TransactionManager.Add call sites", token.NoPos, fmt.Sprintf("expected ≥2, found %d", nAdd))
+	}
+	if f := c.mustFn("service", "TransactionManager", "Add"); f != nil {
+		// inside Add: the pool insertion is reached only with verified set or VerifyTx passed
+		for _, cs := range c.calls(f, byMethod("addInLock")) {
+			c.requireAtAny("C13.verify-door", "TransactionManager.Add inserts", cs.Instr, "verified by the caller ∨ VerifyTx == nil",
+				wTrue("verified", `^\$2$`), wSame("VerifyTx == nil", `^\$r\.VerifyTx\(\$0\)$`, `^nil$`))
+		}
+	}
+	for _, nm := range []string{"SerializeVRS", "SerializeRS", "SerializeRSV"} {
+		f := c.fn("common/crypto", "Signature", nm)
+		if f == nil {
+			continue
+		}
+		for _, b := range f.Blocks {
+			for _, in := range b.Instrs {
+				st, ok := in.(*ssa.Store)
+				if !ok {
+					continue
+				}
+				if ia, ok := st.Addr.(*ssa.IndexAddr); ok && strings.HasPrefix(render(ia.X), "$r.bytes") {
+					c.violate("C13.recover-guard", "Signature."+nm+" does not modify the signature", st.Pos(), "writes "+render(st.Addr)+": after serialising once the same signature no longer recovers its signer")
+				}
+			}
+		}
+		for _, cs := range c.calls(f, byCallee("builtin:copy")) {
+			_, a := callArgs(cs.Common())
+			c.check(!strings.HasPrefix(render(a[0]), "$r.bytes"), "C13.recover-guard", "Signature."+nm+" copies out of, not into, the signature", cs.Pos(), render(a[0]), "copies into "+render(a[0]))
+		}
+	}
+	if f := c.mustFn("common", "Signature", "UnmarshalBinary"); f != nil {
+		n := 0
+		for _, cs := range c.calls(f, byCallee("common/crypto.ParseSignature")) {
+			_, a := callArgs(cs.Common())
+			n++
+			c.check(render(a[0]) == "$0", "C13.recover-guard", "UnmarshalBinary parses the whole field", cs.Pos(), "ParseSignature(s)", "parses "+render(a[0])+": trailing bytes of an over-long signature field are ignored instead of rejected")
+		}
+		if n != 1 {
+			c.undecided("C13.recover-guard", "Signature.UnmarshalBinary", f.Pos(), fmt.Sprintf("%d ParseSignature calls", n))
+		}
 	}
 }
